@@ -57,6 +57,8 @@ def shapes(tier):
     # the forms in which the parameters may be handed over (None = take them from the model; an explicitly empty
     # collection is NOT "take them from the model"; list / dict / single variable)
     out.append({"what": "pars_forms"})
+    # data handed to the sampler's methods, edited in place between calls
+    out.append({"what": "sampler_data"})
     return out
 
 
@@ -86,9 +88,17 @@ class Par:
             raise AttributeError(attr)
         if attr == "owner":
             if fl["has_owner"]():
-                op = RandomVariable() if fl["is_rv"]() else OtherOp()
+                if fl["is_rv"]():
+                    op = RandomVariable()
+                    op._print_name = (fl["kind"](), "x")
+                    return types.SimpleNamespace(op=op, inputs=[])
+                # a deterministic function of ONE Normal random variable (exp, abs, ...): not a Normal prior
+                inner_op = RandomVariable()
+                inner_op._print_name = ("Normal", "x")
+                inner = types.SimpleNamespace(owner=types.SimpleNamespace(op=inner_op, inputs=[]))
+                op = OtherOp()
                 op._print_name = (fl["kind"](), "x")
-                return types.SimpleNamespace(op=op)
+                return types.SimpleNamespace(op=op, inputs=[inner])
             raise AttributeError(attr)
         raise AttributeError(attr)
 
@@ -359,6 +369,72 @@ def _run_data(shape, res, sink):
     return ex
 
 
+def _run_sampler_data(shape, res, sink):
+    """through the sampler's public methods with the REAL validate_prepare_data: count mismatches and unsupported sources
+    must raise on every call -- also when a list / dict that was valid on an earlier call has been edited in place since"""
+    from checks import groupa
+    S = groupa.Setup(with_api=True)
+    st = S.st
+    st.load("data_helpers")
+    st.load("data")
+    st.thejoker.validate_prepare_data = st.data_helpers.validate_prepare_data      # undo the harness stub for this family
+    RVData = st.data.RVData
+    kms = units.km / units.s
+
+    def mk(n, tag, base, cov=False):
+        t = symnp.SymArray(symnp._obj([core.real("t%s_%d" % (tag, i)) for i in range(n)]), symnp._F8)
+        for i in range(n):
+            core.assume(t.a[i] > base + i)
+            core.assume(t.a[i] < base + i + 1)
+        rv = units.Quantity(symnp.SymArray(symnp._obj([core.real("rv%s_%d" % (tag, i)) for i in range(n)]), symnp._F8), kms)
+        e = units.Quantity(symnp.SymArray(symnp._obj([[1.0 if i == j else 0.0 for j in range(n)] for i in range(n)] if cov else [1.0] * n), symnp._F8), kms ** 2 if cov else kms)
+        return RVData(t, rv, e)
+
+    def harness():
+        S.reset()
+        prior = S.JokerPrior(S)
+        prior.n_offsets, prior.poly_trend = 1, 1
+        joker = st.thejoker.TheJoker(prior, pool=env.Pool(S.w, size=1), rng=env.SymRng(S.w))
+        lib, lnp = S.library(1, with_lnp=False)
+        samples = S.as_packed(lib)
+        out = []
+        data = [mk(1, "a", 0), mk(1, "b", 10)]
+        out.append(("list of 2 sources, one offset prior", _try(lambda: joker.marginal_ln_likelihood(data, samples, in_memory=True)), None))
+        data.append(mk(1, "c", 20))
+        out.append(("the same list after a third source was appended", _try(lambda: joker.marginal_ln_likelihood(data, samples, in_memory=True)), ValueError))
+        del data[2]
+        out.append(("the same list with two sources again", _try(lambda: joker.marginal_ln_likelihood(data, samples, in_memory=True)), None))
+        data[1] = mk(2, "d", 30, cov=True)
+        out.append(("the same list with a covariance source put in", _try(lambda: joker.marginal_ln_likelihood(data, samples, in_memory=True)), NotImplementedError))
+        data[1] = (1.0, 2.0, 3.0)
+        out.append(("the same list with a non-RVData entry", _try(lambda: joker.rejection_sample(data, samples, in_memory=True)), TypeError))
+        d2 = {"x": mk(1, "e", 40), "y": mk(1, "f", 50)}
+        out.append(("dict of 2 sources", _try(lambda: joker.marginal_ln_likelihood(d2, samples, in_memory=True)), None))
+        del d2["y"]
+        out.append(("the same dict after one source was removed", _try(lambda: joker.marginal_ln_likelihood(d2, samples, in_memory=True)), ValueError))
+        return out
+    ex = core.Explorer(max_paths=50)
+    twin = False
+    for path in ex.paths(harness):
+        core.Ctx.cur = path.ctx
+        try:
+            r, _, _ = path.check(core.SB(z3.BoolVal(False)))
+            twin = twin or r == "sat"
+            if path.raised is not None:
+                if isinstance(path.raised, core.UnsupportedByShim):
+                    raise path.raised
+                sink.check(path, "sampler_data.harness", core.SB(z3.BoolVal(False)), site="TheJoker._make_joker_helper", describe=lambda m: {"raised": repr(path.raised)[:300]})
+                continue
+            for lbl, (ok, exc), exp in path.result:
+                good = (exp is None and ok) or (exp is not None and not ok and isinstance(exc, exp))
+                sink.check(path, "sampler_data", core.SB(z3.BoolVal(bool(good))), site="TheJoker._make_joker_helper", describe=lambda m, lbl=lbl, exc=exc: {"case": lbl, "raised": repr(exc)[:150]},
+                           structural_claim=True)
+        finally:
+            core.Ctx.cur = None
+    res["twin_ok"] = twin
+    return ex
+
+
 def _try(fn):
     try:
         fn()
@@ -406,7 +482,7 @@ def _run_joker_init(shape, res, sink):
 def run_shape(shape, tier):
     res = new_result(shape)
     sink = VCSink(res, PROPERTY)
-    ex = {"prior": _run_prior, "data": _run_data, "joker_init": _run_joker_init, "pars_forms": _run_pars_forms}[shape["what"]](shape, res, sink)
+    ex = {"prior": _run_prior, "data": _run_data, "joker_init": _run_joker_init, "pars_forms": _run_pars_forms, "sampler_data": _run_sampler_data}[shape["what"]](shape, res, sink)
     fill_explorer(res, ex)
     if shape["what"] == "prior" and shape["param"] in ("K", "e", "dv0_1", "P"):
         res["witnesses"].append({"vc": "witness", "site": "prior", "shape": shape, "model": {"param": shape["param"], "scan": True}, "witness": True})
@@ -447,7 +523,9 @@ def replay(cand):
         if n in ("s", "K") or n.startswith("dv0"):
             return u.km / u.s
         return u.km / u.s / u.day ** int(n[1:])
-    dist_of = {"Normal": lambda nm: pm.Normal(nm, 0.0, 5.0), "LogNormal": lambda nm: pm.LogNormal(nm, 0.0, 1.0), "HalfNormal": lambda nm: pm.HalfNormal(nm, 5.0),
+    import pytensor.tensor as _pt
+    dist_of = {"exp_of_Normal": lambda nm: _pt.exp(pm.Normal(nm + "_in", 0.0, 1.0)),
+               "Normal": lambda nm: pm.Normal(nm, 0.0, 5.0), "LogNormal": lambda nm: pm.LogNormal(nm, 0.0, 1.0), "HalfNormal": lambda nm: pm.HalfNormal(nm, 5.0),
                "Uniform": lambda nm: pm.Uniform(nm, -5.0, 5.0), "StudentT": lambda nm: pm.StudentT(nm, nu=3.0, mu=0.0, sigma=5.0)}
     scenarios = []
     if m.get("scan"):
@@ -468,9 +546,13 @@ def replay(cand):
             return {"reproduced": False, "detail": "unit %r not realisable" % m.get("unit")}
         lin = target == "K" or target.startswith("v") or target.startswith("dv0")
         valid = m.get("present", True) and m.get("has_unit") and un.is_equivalent(canonical(target)) and (not lin or m.get("kind") in ("Normal", "FixedCompanionMass"))
-        if lin and not (m.get("has_owner", True) and m.get("is_rv", True)):
-            return {"reproduced": False, "detail": "non-RandomVariable stand-ins are not realisable with pymc objects"}
-        scenarios.append({"present": m.get("present", True), "has_unit": m.get("has_unit", True), "unit": un, "kind": m.get("kind", "Normal"), "valid": bool(valid)})
+        if lin and not m.get("has_owner", True):
+            return {"reproduced": False, "detail": "variables without an owner are not realisable with pymc objects"}
+        kind_ = m.get("kind", "Normal")
+        if lin and not m.get("is_rv", True):
+            kind_ = "exp_of_Normal"          # a deterministic transform of a Normal variable
+            valid = False
+        scenarios.append({"present": m.get("present", True), "has_unit": m.get("has_unit", True), "unit": un, "kind": kind_, "valid": bool(valid)})
     bad = []
     for sc in scenarios:
         try:
@@ -541,6 +623,23 @@ def _replay_other(shape, m):
              (lambda: validate_prepare_data({"a": d(1), "ab": d(1, 1)}, 1, 0), ValueError),
              (lambda: validate_prepare_data({1: d(1), 10: d(1, 1), 100: d(1, 2)}, 1, 1), ValueError),
              (lambda: validate_prepare_data({"hires": d(1), "harps": d(1, 1), "harpsn": d(2, 2)}, 1, 2), None)]
+    if shape["what"] == "sampler_data":
+        import pymc as pm
+        import thejoker.units as xu
+        with pm.Model():
+            dv = xu.with_unit(pm.Normal("dv0_1", 0.0, 4.0), u.km / u.s)
+            prior1 = tj.JokerPrior.default(P_min=2 * u.day, P_max=100 * u.day, sigma_K0=30 * u.km / u.s, sigma_v=10 * u.km / u.s, v0_offsets=[dv])
+        jk = tj.TheJoker(prior1, rng=np.random.default_rng(1))
+        smp = prior1.sample(size=4, rng=np.random.default_rng(2))
+        lst = [d(2), d(2, 20)]
+        dd2 = {"x": d(2), "y": d(2, 20)}
+        cases = [(lambda: jk.marginal_ln_likelihood(lst, smp, in_memory=True), None),
+                 (lambda: (lst.append(d(2, 40)), jk.marginal_ln_likelihood(lst, smp, in_memory=True)), ValueError),
+                 (lambda: (lst.pop(), jk.marginal_ln_likelihood(lst, smp, in_memory=True)), None),
+                 (lambda: (lst.__setitem__(1, dc), jk.marginal_ln_likelihood(lst, smp, in_memory=True)), NotImplementedError),
+                 (lambda: (lst.__setitem__(1, (1.0, 2.0)), jk.rejection_sample(lst, smp, in_memory=True)), TypeError),
+                 (lambda: jk.marginal_ln_likelihood(dd2, smp, in_memory=True), None),
+                 (lambda: (dd2.pop("y"), jk.marginal_ln_likelihood(dd2, smp, in_memory=True)), ValueError)]
     if shape["what"] == "pars_forms":
         import pymc as pm
         import thejoker.units as xu
